@@ -20,10 +20,13 @@ the executor's skip decision (`P/Skip.lean`, tied by `harness/skipcorr.py`):
   changed file (or a step whose environment / glob matches changed) are marked, **every** node
   reachable through recorded dependency edges, attached or detached, is invalidated: no step on
   the way is SUCCEEDED and no file on the way is BUILT.  Stored step hashes are kept (the step is
-  re-checked, not trusted).  `external_update_complete` is the end-to-end form for one request:
-  `update_file_hashes({p: h}, EXTERNAL)` (startup rescan, watcher; changed or vanished file; static
-  input or output), using the regenerated `_HASH_TRANSITIONS` table, leaves a sound database with
-  everything downstream of `p` invalidated; `rescanEnv_propagation_complete` is the same for
+  re-checked, not trusted).  `external_update_complete_partial` is the end-to-end form for one
+  request: `update_file_hashes({p: h}, EXTERNAL)` (startup rescan, watcher) for a static input that
+  changed or vanished and for an output that vanished, using the regenerated `_HASH_TRANSITIONS`
+  table, leaves a sound database with everything downstream of `p` invalidated.  The remaining
+  case (an output that the user *modified*: only the producer is marked, the consumers follow
+  when it completes) is why the full statement `ExternalUpdateComplete` stays a `def`; it is the
+  known finding `watch-differs:external-update-order` of C14; `rescanEnv_propagation_complete` is the same for
   `rescan_env_vars`.
 * **skip_sound**: `try_skip_job` records SUCCEEDED without running only if the recomputed input
   digest and the recomputed output digest both equal the stored ones; every other outcome resets
@@ -231,31 +234,22 @@ theorem soundBut_pendCreator {E : Dep → Prop} (s s' : KState) (f : Key) (hs : 
   · simp only [pure, Except.pure, Except.ok.injEq] at h
     subst h; exact ⟨hs, rfl⟩
 
-/-- `handle_updated_file` on a file that is CONFIRMED, PLANNED or OUTDATED after the update. -/
+/-- `handle_updated_file` of a CONFIRMED file is exactly the marking of its consumers. -/
+theorem handleUpdated_confirmed (s : KState) (f : Key) (h : s.fstateOf f = some .confirmed) :
+    s.handleUpdated f = s.markConsumersPending f := by
+  unfold KState.handleUpdated KState.fileState?
+  unfold KState.fstateOf at h
+  simp [h]
+
+/-- `handle_updated_file` on a file that is CONFIRMED after the update (a static input whose
+content changed).  For a PLANNED / OUTDATED file (an output that the user modified) the code only
+marks the *producer* pending; the consumers are marked when the producer completes again. -/
 theorem handleUpdated_complete (s s' : KState) (f0 : Key) (hf0 : f0.kind = .file)
-    (hs : SoundBut (fun d => d.src = f0) s)
-    (hst : s.fstateOf f0 = some .confirmed ∨ s.fstateOf f0 = some .planned ∨ s.fstateOf f0 = some .outdated)
+    (hs : SoundBut (fun d => d.src = f0) s) (hst : s.fstateOf f0 = some .confirmed)
     (h : s.handleUpdated f0 = .ok s') :
     Sound s' ∧ ∀ x, Downstream s.deps f0 x → Invalidated s' x := by
-  unfold KState.handleUpdated KState.fileState? at h
-  unfold KState.fstateOf at hst
-  by_cases hc : (s.find? f0).map (·.fstate) = some .confirmed
-  · simp only [hc, if_true] at h
-    exact consumers_marked_complete s s' f0 hf0 hs h
-  · have hpo : (s.find? f0).map (·.fstate) = some .planned ∨ (s.find? f0).map (·.fstate) = some .outdated := by
-      rcases hst with h1 | h1 | h1
-      · exact absurd h1 hc
-      · exact Or.inl h1
-      · exact Or.inr h1
-    simp only [hc, if_false, hpo, if_true, bind, Except.bind] at h
-    cases hp : s.pendCreator f0 with
-    | error e => simp [hp] at h
-    | ok s1 =>
-      simp only [hp] at h
-      obtain ⟨hs1, hdeps1⟩ := soundBut_pendCreator s s1 f0 hs hp
-      have := consumers_marked_complete s1 s' f0 hf0 hs1 h
-      rw [hdeps1] at this
-      exact this
+  rw [handleUpdated_confirmed s f0 hst] at h
+  exact consumers_marked_complete s s' f0 hf0 hs h
 
 /-- `handle_deleted_file`. -/
 theorem handleDeleted_complete (s s' : KState) (f0 : Key) (hf0 : f0.kind = .file)
@@ -275,11 +269,23 @@ theorem handleDeleted_complete (s s' : KState) (f0 : Key) (hf0 : f0.kind = .file
   · simp only [hp, if_false, bind, Except.bind, pure, Except.pure] at h
     exact consumers_marked_complete s s' f0 hf0 hs h
 
+/-- The full statement: whatever file an EXTERNAL update concerns.  Not a theorem: when the user
+modifies an *output* (BUILT / OUTDATED, hash known) the file turns PLANNED and only its producer is
+marked pending; its consumers stay SUCCEEDED until the producer has run again (known finding of
+C14, `watch-differs:external-update-order`; the fix was withdrawn because an upstream example
+pins the step states). -/
+def ExternalUpdateComplete : Prop :=
+  ∀ (s s' : KState) (p : String) (hh : Option Nat), Sound s → s.updateFileHashes [(p, hh)] .external = .ok s' →
+    Sound s' ∧ ∀ x, Downstream s.deps (fileKey p) x → Invalidated s' x
+
 /-- **propagation_complete, end to end for one file**: `update_file_hashes({p: h}, EXTERNAL)` (what
 the startup rescan and the watcher apply for a file whose hash changed or that vanished), from a
-sound database with no step RUNNING or CHECKING: the request leaves a sound database in which
-every node downstream of `p`, attached or detached, is invalidated. -/
-theorem external_update_complete (s s' : KState) (p : String) (hh : Option Nat) (hs : Sound s)
+sound database with no step RUNNING or CHECKING, for a static input that changed or vanished and
+for an output that vanished: the request leaves a sound database in which every node downstream
+of `p`, attached or detached, is invalidated.  (`_partial`: the case "output modified", excluded
+by `hcase`, is the one described at `ExternalUpdateComplete`.) -/
+theorem external_update_complete_partial (s s' : KState) (p : String) (hh : Option Nat) (hs : Sound s)
+    (hcase : hh = none ∨ ∀ n, s.find? (fileKey p) = some n → n.fstate ≠ .built ∧ n.fstate ≠ .outdated)
     (h : s.updateFileHashes [(p, hh)] .external = .ok s') :
     Sound s' ∧ ∀ x, Downstream s.deps (fileKey p) x → Invalidated s' x := by
   rw [updateFileHashes_single] at h
@@ -348,14 +354,24 @@ theorem external_update_complete (s s' : KState) (p : String) (hh : Option Nat) 
               subst h
               refine handleUpdated_complete s1 s2 (fileKey p) hkf hs1 ?_ hu
               rw [hfnew]
-              -- an update with a known hash leads to CONFIRMED or PLANNED
+              -- an "updated" action leads to CONFIRMED, or to PLANNED for a modified output (excluded)
+              have hcase' : hh.isSome = false ∨ (n.fstate ≠ .built ∧ n.fstate ≠ .outdated) := by
+                rcases hcase with h0 | h0
+                · left; rw [h0]; rfl
+                · right; exact h0 n hf
+              unfold lookupTransition at hl
               rcases hnew with rfl | rfl | rfl
               · exfalso
-                unfold lookupTransition at hl
                 cases hst : n.fstate <;> cases hk : hh.isSome <;>
                   simp [hst, hk, Generated.hashTransitions, List.find?] at hl
-              · exact Or.inl rfl
-              · exact Or.inr (Or.inl rfl)
+              · rfl
+              · exfalso
+                rcases hcase' with h0 | ⟨h1, h2⟩
+                · cases hst : n.fstate <;> simp [hst, h0, Generated.hashTransitions, List.find?] at hl
+                · cases hst : n.fstate <;> cases hk : hh.isSome <;>
+                    simp [hst, hk, Generated.hashTransitions, List.find?] at hl
+                  · exact h1 hst
+                  · exact h2 hst
           · -- deleted
             simp only [if_true, pure, Except.pure] at h
             cases hd : s1.handleDeleted (fileKey p) with
@@ -380,13 +396,6 @@ theorem propagation_complete_step (s s' : KState) (k : Key) (hk : k.kind = .step
   refine ⟨hs', hk_ns, ?_⟩
   rw [← hdeps]
   exact downstream_invalidated s' k hs' (step_base s' k hk hs' hk_ns)
-
-/-- `handle_updated_file` of a CONFIRMED file is exactly the marking of its consumers. -/
-theorem handleUpdated_confirmed (s : KState) (f : Key) (h : s.fstateOf f = some .confirmed) :
-    s.handleUpdated f = s.markConsumersPending f := by
-  unfold KState.handleUpdated KState.fileState?
-  unfold KState.fstateOf at h
-  simp [h]
 
 /-- **Environment rescan** (`startup.rescan_env_vars`): every attached step whose recorded value
 of a variable differs from the current environment is not SUCCEEDED afterwards, and everything
